@@ -71,6 +71,9 @@ Definition c15_py_item_sites (it : ritem) : list c15_doc_site :=
   | _ => c15_sites true (c15_item_docs it)
   end.
 Definition c15_site_ok (l : c15_lang) (s : c15_doc_site) : bool := c15_safe l (fst s) (snd s).
+(* the text printed for a documented position: the doc string as written in its comment form (Spec/C15Spec.v c15_written:
+   TypeScript and Python docstrings escape the comment terminator, everything else is verbatim) *)
+Definition c15_site_text (l : c15_lang) (s : c15_doc_site) : str := c15_written l (fst s) (snd s).
 
 (* ---- neutrality of code: characters that leave the reference lexer of language l in code mode ---- *)
 Definition c15_plain_char (l : c15_lang) (c : char) : bool :=
